@@ -162,6 +162,17 @@ add("C18", "fault_enumeration",
     "exhaustive fault-point enumeration: exception injected at every library line event (sys.settrace), followed by differential probes",
     "DESIGN.md section 5 C18")
 
+add("C19", "model_checking",
+    "Two real threads on one shared function are serialised by a baton at every executed source line of the library's build / dispatch / "
+    "resolution code and ALL schedules with at most 1 (thorough: 2 on the cache-miss scenarios) preemption are run: racing first calls "
+    "(lazy build) through three entry points, racing cache misses for equal / different / position-sharing tuples, racing call_next "
+    "chains, racing dependent dispatchers; each thread must get its sequential result, no deadlock, and the function must be correct "
+    "for every probe afterwards.",
+    "Trusted: switches happen between source lines of the visible library functions (thorough re-runs bound 1 with every library line visible); "
+    "the build lock is replaced by a cooperative lock through the guarded seam; standard-library internals are outside the model.",
+    "stateless schedule exploration of the real threads under a controlled scheduler with iterative preemption bounding (CHESS-style)",
+    "DESIGN.md section 5 C19")
+
 ALL = [f"C{i:02d}" for i in range(1, 21)]
 REASON_PENDING = "check not built yet in this round (planned: DESIGN.md section 5); not claimed until its machinery exists"
 
